@@ -745,6 +745,11 @@ func (m *Machine) WhenQueue(tick Result) <-chan struct{} {
 	m.queueMx.Lock()
 	defer m.queueMx.Unlock()
 
+	// disposed while waiting for the lock: nothing would close the channel
+	if m.disposed.Load() {
+		return m.subs.Closed
+	}
+
 	// finish early, but only for ticks which have been fully processed
 	if m.queueTickDone >= uint64(tick) {
 		return m.subs.Closed
